@@ -215,6 +215,28 @@ func RunWorld(t *testing.T, cfg Config, body func(k *Kernel)) (k *Kernel) {
 				panic(r)
 			}
 		}()
+		// A failure inside the bubble (the race detector's per-test check) makes
+		// synctest.Test call FailNow on the T it was given: run it under a
+		// subtest so that only that subtest's goroutine exits.
+		t.Run("w", func(st *testing.T) {
+			defer func() {
+				if r := recover(); r != nil {
+					s := fmt.Sprint(r)
+					if strings.Contains(s, "deadlock") {
+						k.Failures = append(k.Failures, "bubble-leak: "+s)
+						return
+					}
+					panic(r)
+				}
+			}()
+			runBubble(st, k, body)
+		})
+	}()
+	return k
+}
+
+func runBubble(t *testing.T, k *Kernel, body func(k *Kernel)) {
+	func() {
 		synctest.Test(t, func(t *testing.T) {
 			k.Start = time.Now()
 			k.timerWake = make(chan struct{}, 1)
@@ -229,7 +251,6 @@ func RunWorld(t *testing.T, cfg Config, body func(k *Kernel)) (k *Kernel) {
 			body(k)
 		})
 	}()
-	return k
 }
 
 func (k *Kernel) Now() time.Time { return time.Now() }
